@@ -4,11 +4,13 @@ import TracklibVerif.Drv.Util
 /-! Driver handler for C20 (projection on a segment / polyline), `Float` instance of `Model/Proj`.
 Floats are IEEE bit patterns. Commands:
   seg  x1 y1 x2 y2 x y          → `ok d xp yp`            | `err zerodiv`
-  poly <X list> <Y list> x y    → `ok d xp yp i`          | `err zerodiv` | `err unbound`
+  poly <X list> <Y list> x y    → `ok d xp yp i`          | `err zerodiv` | `err index` (empty) | `err overflow`
+                                  (lists of Python floats and a Python float query: `v ** 2` raises on overflow)
   map  <X list> <Y list> x y    → `ok xp yp d i`          (mapOnTrack with a coordinate)
   mapt <X list> <Y list> <QX list> <QY list> → `ok xp,yp,d,i;…` (mapOnTrack with a track)
   segg np x1 y1 x2 y2 x y       → as `seg`; `np` = `1` when the segment is a numpy array (`-c / b` never raises)
-  polyxy np <X list> <Y list> x y → as `poly`, the two sequences as given (any lengths) | `err index`
+  polyxy np npq <X list> <Y list> x y → as `poly`, the two sequences as given (any lengths) | `err index`; `npq` = `1` when
+                                  `x - Xp[0]` is a numpy scalar (numpy container or numpy query: `v ** 2` never raises)
   map3 <X> <Y> <Z> x y z        → `ok xp yp zp d i`       (mapOnTrack with a 3D coordinate on a 3D track)
   mapt3 <X> <Y> <Z> <QX> <QY> <QZ> → `ok xp,yp,zp,d,i;…`  (mapOnTrack with a 3D track of queries)
   mapf <names> <cols> <QX> <QY> <QZ> <QT> <refs> → `ok call …` | `err kind call …`: chained `mapOnTrack(track, track)` on track
@@ -19,8 +21,10 @@ Floats are IEEE bit patterns. Commands:
        `dist` / `edge` read from the output's feature table; `err kind` = the exception that stopped the chain.
 The `proj_polyligne` requests (`poly`, `polyxy`) are answered with the SENTINEL-FAITHFUL forms of the model
 (`projPolyligneS`, `projPolyligneXYS`, sentinel `inf = 1.0 / 0.0`, the double Python reads `1e400` as): the test is
-`dist < inf` as in the code, so an input whose distances are all `inf`/NaN answers `err unbound` where Python raises
-`UnboundLocalError` (`Tie/C20.lean` `tie_proj_polyligne_exact`). The `mapOnTrack` requests (`map`, `mapt`, `map3`, `mapt3`,
+`dist < inf` as in the code, so an input whose distances are all `inf`/NaN keeps nothing and is answered from the first
+vertex by `finishS` (`if distmin == 1e400: distmin = math.sqrt((x - xproj) ** 2 + (y - yproj) ** 2)`), with `sqPy`: Python's
+float `**` raises `OverflowError` where the square leaves the double range, numpy's returns `inf`
+(`Tie/C20.lean` `tie_proj_polyligne_exact` ties the same model with the translator's total `pow`). The `mapOnTrack` requests (`map`, `mapt`, `map3`, `mapt3`,
 `mapf`) still go through the `none`-state forms (`projOnTrack`, …), equal to the former whenever a distance met is finite
 (the harness sends no `mapOnTrack` request with a non-finite / overflowing coordinate). -/
 namespace TV.Drv.C20
@@ -34,7 +38,15 @@ def inf : Float := 1.0 / 0.0
 
 def showErr : Err → String
   | .zerodiv => "err zerodiv"
-  | .unbound => "err unbound"
+  | .index => "err index"
+  | .overflow => "err overflow"
+
+/-- `v ** 2` as Python evaluates it: `float.__pow__` raises `OverflowError` when the result of a finite base is infinite;
+with a numpy scalar (`np`) the result is `inf` (and a RuntimeWarning). The value is `v * v` (libm's `pow(v, 2.0)` up to its
+rounding; numpy squares by multiplication). -/
+def sqPy (np : Bool) (v : Float) : Except Err Float :=
+  let r := v * v
+  if !np && r.isInf && v.isFinite then .error .overflow else .ok r
 
 def zipPts? (xs ys : List Float) : Option (List (Float × Float)) :=
   if xs.length == ys.length then some (xs.zip ys) else none
@@ -125,7 +137,7 @@ def handle (cmd : String) (args : List String) : String :=
       match zipPts? xs ys with
       | none => "bad-request"
       | some pts =>
-        match projPolyligneS inf Float.sqrt eps pts x y with
+        match projPolyligneS inf Float.sqrt (sqPy false) eps pts x y with
         | .error e => showErr e
         | .ok r => s!"ok {showFloat r.1} {showFloat r.2.1} {showFloat r.2.2.1} {r.2.2.2}"
     | _, _, _, _ => "bad-request"
@@ -156,13 +168,13 @@ def handle (cmd : String) (args : List String) : String :=
       | .error e => showErr e
       | .ok r => s!"ok {showFloat r.1} {showFloat r.2.1} {showFloat r.2.2}"
     | _, _ => "bad-request"
-  | "polyxy", [np, xs, ys, qx, qy] =>
-    match bool? np, floatList? xs, floatList? ys, float? qx, float? qy with
-    | some np, some xs, some ys, some x, some y =>
-      match projPolyligneXYS np inf Float.sqrt eps xs ys x y with
+  | "polyxy", [np, npq, xs, ys, qx, qy] =>
+    match bool? np, bool? npq, floatList? xs, floatList? ys, float? qx, float? qy with
+    | some np, some npq, some xs, some ys, some x, some y =>
+      match projPolyligneXYS np inf Float.sqrt (sqPy npq) eps xs ys x y with
       | .error e => showErrX e
       | .ok r => s!"ok {showFloat r.1} {showFloat r.2.1} {showFloat r.2.2.1} {r.2.2.2}"
-    | _, _, _, _, _ => "bad-request"
+    | _, _, _, _, _, _ => "bad-request"
   | "map3", [xs, ys, zs, qx, qy, qz] =>
     match floatList? xs, floatList? ys, floatList? zs, [qx, qy, qz].mapM float? with
     | some xs, some ys, some zs, some [x, y, z] =>
